@@ -883,8 +883,6 @@ func (env *Env) elabCall(x *ECall) SV {
 			case "recvcount", "recvat":
 				// ghost history of a channel variable: recvcount(ch), recvat(ch, k)
 				cv := env.elab(x.Args[0])
-				name := strings.Trim(cv.t, "|")
-				name = strings.TrimPrefix(strings.TrimPrefix(name, "p."), "fv.")
 				var et types.Type
 				if cv.ty != nil {
 					if ch, ok := cv.ty.Underlying().(*types.Chan); ok {
@@ -894,14 +892,12 @@ func (env *Env) elabCall(x *ECall) SV {
 				if et == nil {
 					return env.fail("%s: not a channel", x.Args[0].String())
 				}
-				cn := "recv." + name
-				env.tr.stateSort[cn+".n"] = "Int"
-				env.tr.stateSort[cn+".at"] = "(Array Int " + env.vc.sortOf(et) + ")"
+				cnN, cnAt := env.tr.recvVars(et)
 				if id.Name == "recvcount" {
-					return env.intSV(env.tr.getState(env.st, cn+".n"))
+					return env.intSV(sel(env.tr.getState(env.st, cnN), cv.t))
 				}
 				k := env.elab(x.Args[1])
-				return env.goSV(sel(env.tr.getState(env.st, cn+".at"), k.t), et)
+				return env.goSV(sel(sel(env.tr.getState(env.st, cnAt), cv.t), k.t), et)
 			case "lastres":
 				fid, ok := x.Args[0].(*EIdent)
 				if !ok {
